@@ -119,7 +119,9 @@ def run(ctx):
         scenarios.append(dc.Scenario(
             before=hb, after=ha, leaf=lf,
             debug=(leaf in ("debug", "debugroot")),
-            method=rng.choice(["GET", "POST", "HEAD"])
+            method=rng.choice(["GET", "POST", "HEAD"] + (
+                ["OPTIONS", "OPTIONS", "DELETE", "TRACE"]
+                if leaf in ("405", "404") else []))
             if leaf not in ("file", "dir", "403", "debugroot")
             else rng.choice(["GET", "HEAD"]),
             shandlers={(403, 2): ("ret", ("str", "u403"))}
